@@ -28,6 +28,8 @@ type Long struct {
 	Spots  []Spot    `json:"spots,omitempty"`
 	SPat   []LongStr `json:"spat,omitempty"`
 	SSpots []SSpot   `json:"sspots,omitempty"`
+	View   *View     `json:"view,omitempty"`  // the argument slice is a window into a larger poisoned buffer (see Wide.View)
+	Procs  int       `json:"procs,omitempty"` // C20.big only: runtime.GOMAXPROCS during the call (0 = unchanged)
 }
 
 type Spot struct {
@@ -53,6 +55,14 @@ const (
 	maxLongBytes = 4 << 20
 )
 
+// longLimits: C20.long and C20.big share the encoding and differ in the admitted sizes.
+type longLimits struct{ args, str, bytes int }
+
+var (
+	limLong = longLimits{maxLongArgs, maxLongStr, maxLongBytes}
+	limBig  = longLimits{maxBigArgs, maxBigStr, maxBigBytes}
+)
+
 func (s LongStr) build() string {
 	if s.N <= 0 {
 		return ""
@@ -74,9 +84,9 @@ func (s LongStr) build() string {
 func lit(s string) LongStr { return LongStr{N: len(s), Pat: s} }
 
 // expand turns the compact encoding into the explicit argument list.
-func (c Long) expand() (w Wide, wt *wtype, maxStr int, ok bool) {
+func (c Long) expand(lim longLimits) (w Wide, wt *wtype, maxStr int, ok bool) {
 	wt = wideType(c.Type)
-	if wt == nil || c.N < 0 || c.N > maxLongArgs || len(c.Spots) > 8 || len(c.SSpots) > 8 {
+	if wt == nil || c.N < 0 || c.N > lim.args || len(c.Spots) > 8 || len(c.SSpots) > 8 || !c.View.ok() {
 		return w, nil, 0, false
 	}
 	valid := false
@@ -99,7 +109,7 @@ func (c Long) expand() (w Wide, wt *wtype, maxStr int, ok bool) {
 	if !valid {
 		return w, nil, 0, false
 	}
-	w = Wide{Fn: c.Fn, Type: c.Type}
+	w = Wide{Fn: c.Fn, Type: c.Type, View: c.View}
 	if wt.kind == "string" {
 		if len(c.SPat) == 0 || len(c.SPat) > 8 {
 			return w, nil, 0, false
@@ -107,7 +117,7 @@ func (c Long) expand() (w Wide, wt *wtype, maxStr int, ok bool) {
 		total := 0
 		check := func(s LongStr) bool {
 			total += s.N
-			return s.N <= maxLongStr && len(s.Edits) <= 8
+			return s.N <= lim.str && len(s.Edits) <= 8
 		}
 		pat := make([]string, len(c.SPat))
 		for i, s := range c.SPat {
@@ -123,7 +133,7 @@ func (c Long) expand() (w Wide, wt *wtype, maxStr int, ok bool) {
 			w.Strs[i] = pat[i%len(pat)]
 			size += len(w.Strs[i])
 		}
-		if size > maxLongBytes {
+		if size > lim.bytes {
 			return w, nil, 0, false
 		}
 		for _, sp := range c.SSpots {
@@ -195,7 +205,14 @@ func spotClass(pos, n int) string {
 }
 
 func RunLong(c Long) pbt.Outcome {
-	w, wt, maxStr, ok := c.expand()
+	if c.Procs != 0 {
+		return malformed()
+	}
+	return runLong(c, limLong)
+}
+
+func runLong(c Long, lim longLimits) pbt.Outcome {
+	w, wt, maxStr, ok := c.expand(lim)
 	if !ok {
 		return malformed()
 	}
@@ -427,6 +444,14 @@ func genLongStr(t *rapid.T, n int) LongStr {
 }
 
 func genLong(t *rapid.T) Long {
+	c := genLongWith(t, genLongSize)
+	if wideType(c.Type).kind != "string" || len(c.SPat) > 0 && c.N > 4 {
+		c.View = genView(t, 3)
+	}
+	return c
+}
+
+func genLongWith(t *rapid.T, genLongSize func(*rapid.T, string) int) Long {
 	wt := wideTypeLottery[rapid.IntRange(0, len(wideTypeLottery)-1).Draw(t, "type")]
 	c := Long{Type: wt.name}
 	if wt.kind == "string" {
@@ -509,8 +534,10 @@ var specLong = pbt.Register(&pbt.Spec[Long]{
 		"overflowing and underflowing products); strings of 7..5001 bytes that are equal, differ only in the first / middle / last byte (incl. 0x00 and 0xff), or are a prefix of each other, in Compare, Less, " +
 		"2-argument Min/Max and Clamp (lo <= hi); Min/Max over N short strings with the answer at each of those positions. Then rapid draws: any type of C20.wide, N from the same classes or uniform in 7..5000, " +
 		"cycles of 1..3 boundary-dense values with 0..3 overriding spots biased to both ends; 1..4 long strings over common patterns with 0..2 edited bytes. NaN never generated. " +
+		"A third of the drawn variadic calls pass a window into a larger poisoned buffer (see C20.wide). One case in 8 is also run as 4 parallel independent copies. " +
 		"non-trivial = more than 6 arguments, or a string argument longer than 8 bytes",
 	Enum: enumLong,
 	Gen:  genLong,
 	Run:  RunLong, Quick: 3000, Thorough: 20000,
+	Replicas: 4, ReplicaEvery: 8,
 })
